@@ -1,5 +1,6 @@
 import CstModel.Props.C01
 import CstModel.Props.GenBuilder2
+import CstModel.Props.GenBuilder3
 open Cst.C01
 #print axioms build_faithful
 #print axioms build_text
@@ -12,3 +13,5 @@ open Cst.C01
 #print axioms Cst.Gen.b_finish_raw
 #print axioms Cst.Gen.b_token_raw
 #print axioms Cst.Gen.b_static_token_raw
+#print axioms Cst.Gen.b_token_model
+#print axioms Cst.Gen.b_static_token_model
